@@ -2172,7 +2172,12 @@ func runEmptyBody(c *Ctx) {
 			continue // not a list of marshalled elements
 		}
 		n++
-		fn := last.Fn
+		// the function that iterates the elements and calls the marshaler
+		// (the length+bytes may be written by a helper it calls)
+		fn := t.Fn
+		if fn == nil {
+			fn = last.Fn
+		}
 		what := "elements of " + strings.TrimPrefix(t.Over, "N.") + " in " + fn.Name()
 		pos := c.P.Pos(fn.Pos())
 		if last.Pos != nil {
@@ -2217,41 +2222,67 @@ func runEmptyBody(c *Ctx) {
 			return false
 		}
 		refuses := false
-		ei := ir.ErrorResultIndex(fn.Signature)
-		for _, b := range fn.Blocks {
-			if len(b.Instrs) == 0 {
+		// a helper that receives the body (depth 1) may hold the test
+		type scope struct {
+			fn    *ssa.Function
+			isLen func(ssa.Value) bool
+		}
+		scopes := []scope{{fn, isLenBody}}
+		for _, cl := range staticCallsIn(fn) {
+			callee := ir.Callee(cl.Call)
+			if callee == nil || !fxOwnFunc(callee) || callee == fn {
 				continue
 			}
-			iff, ok := b.Instrs[len(b.Instrs)-1].(*ssa.If)
-			if !ok {
-				continue
+			for i, a := range cl.Call.Args {
+				for _, b := range bodies {
+					if fxStripNoConv(a) == b && i < len(callee.Params) {
+						p := callee.Params[i]
+						scopes = append(scopes, scope{callee, func(v ssa.Value) bool {
+							x, ok := lenArg(fxStrip(v))
+							return ok && fxStripNoConv(x) == ssa.Value(p)
+						}})
+					}
+				}
 			}
-			bin, ok := iff.Cond.(*ssa.BinOp)
-			if !ok {
-				continue
-			}
-			truth, known := fxCmpConst(bin, isLenBody, fxConst, constant.MakeInt64(0))
-			if !known {
-				continue
-			}
-			emptySide := b.Succs[1]
-			if truth {
-				emptySide = b.Succs[0]
-			}
-			reach := ir.ReachableFrom(emptySide, nil)
-			onlyErrors, any := true, false
-			for _, r := range ir.Returns(fn) {
-				if !reach[r.Block()] {
+		}
+		for _, sc := range scopes {
+			fn, isLenBody := sc.fn, sc.isLen
+			ei := ir.ErrorResultIndex(fn.Signature)
+			for _, b := range fn.Blocks {
+				if len(b.Instrs) == 0 {
 					continue
 				}
-				any = true
-				if ei < 0 || ei >= len(r.Results) || ir.IsNilConst(r.Results[ei]) {
-					onlyErrors = false
+				iff, ok := b.Instrs[len(b.Instrs)-1].(*ssa.If)
+				if !ok {
+					continue
 				}
-			}
-			// the refusal must not sit inside the loop's normal continuation
-			if any && onlyErrors {
-				refuses = true
+				bin, ok := iff.Cond.(*ssa.BinOp)
+				if !ok {
+					continue
+				}
+				truth, known := fxCmpConst(bin, isLenBody, fxConst, constant.MakeInt64(0))
+				if !known {
+					continue
+				}
+				emptySide := b.Succs[1]
+				if truth {
+					emptySide = b.Succs[0]
+				}
+				reach := ir.ReachableFrom(emptySide, nil)
+				onlyErrors, any := true, false
+				for _, r := range ir.Returns(fn) {
+					if !reach[r.Block()] {
+						continue
+					}
+					any = true
+					if ei < 0 || ei >= len(r.Results) || ir.IsNilConst(r.Results[ei]) {
+						onlyErrors = false
+					}
+				}
+				// the refusal must not sit inside the loop's normal continuation
+				if any && onlyErrors {
+					refuses = true
+				}
 			}
 		}
 		if refuses {
